@@ -240,7 +240,11 @@ func (m *Message) tryCompressPayload(enableCompression bool) error {
 		return buf.Err
 	}
 	compressedPayload := buf.Bytes()
-	if m.Flags&Compressed == 0 && enableCompression {
+	// The flag describes the encoding produced by this call: the message can
+	// be serialized more than once (with and without compression for different
+	// peers) or it can be a received one.
+	m.Flags &^= Compressed
+	if enableCompression {
 		switch m.Payload.(type) {
 		case *payload.Headers, *payload.MerkleBlock, payload.NullPayload,
 			*payload.Inventory, *payload.MPTInventory:
